@@ -19,6 +19,10 @@
 //	env         os.Getenv / LookupEnv / Environ / Hostname / Getwd / Getpid / UserHomeDir / Args / TempDir … (process environment)
 //	tz          time.Local, time.LoadLocation, time.Unix* (values in the LOCAL zone), Time.Local / Zone / Location
 //	reflect-map reflect.Value.MapKeys / MapRange (map iteration through reflection)
+//	execution-context-capture `%+v` / `%#v` of an error (stack trace of wrapped errors), pkg/errors.WithStack, runtime.Caller*/Stack,
+//	            debug.Stack/ReadBuildInfo — unless the text goes only to a logger (errtext.go)
+//	error-text-in-consensus-data err.Error() / `%s` `%v` of an error used as a VALUE (not to build another error, not logged, not
+//	            panicked): acknowledgement messages, event attributes, stored fields (errtext.go)
 //	process-state-holder package-level variable of mutable type (map, slice, pointer, interface, chan, func, sync.*, struct holding one):
 //	            a place where process-local state CAN live; every one is listed so that a new one is a finding by itself
 //	process-state write to process-local mutable state (field of a keeper / module / hook / ante struct, package-level
@@ -729,6 +733,7 @@ func main() {
 					if x.Body != nil {
 						c.walkFunc(funcName(x), x)
 						c.procWrites(funcName(x), x.Body)
+						c.errText(funcName(x), x.Body)
 					}
 				case *ast.GenDecl:
 					if x.Tok == token.IMPORT {
